@@ -24,6 +24,7 @@ EXPLANATION = (
     "non-padding struct field covered; same rule on the operand classes. C01.F: metadata/chunk framing and opcode "
     "dispatch are coherent between Subroutine.cstructs and Deserializer."
     ' Each Flavour instance must own its opcode and mnemonic tables (no aliasing of a shared container that is then updated). C01.R: every value an encoder accepts is representable in the field it is written to (the guard/sink obligations of C16).'
+    ' C01.F accepts every list form of cstructs ([h] + [...], [h, *...]) and a kept header only when every writer of _app_id / _netqasm_version drops it.'
 )
 ASSUMPTIONS = [
     "operands are inside their encodable ranges (that is C16)",
@@ -388,6 +389,64 @@ def check_operands(ctx):
     ctx.anchor("C01.P", "operand classes with cstruct/from_raw", n, 4)
 
 
+def cstructs_parts(ctx, sub, cs, rule):
+    """(header expression, comprehension over the instructions) of the list Subroutine.cstructs returns, whatever form the
+    list is written in: `[h] + [..for..]`, `[h, *(..for..)]`, `[h] + list(..for..)`; single-definition locals expanded"""
+    defs = A.single_defs(cs)
+    rets = A.returns(cs)
+    if len(rets) != 1:
+        raise AnalysisError("Subroutine.cstructs: expected one return")
+    e = A.expand(rets[0].value, defs)
+    head = rest = None
+    if isinstance(e, ast.BinOp) and isinstance(e.op, ast.Add) and isinstance(e.left, ast.List) and len(e.left.elts) == 1:
+        head, rest = e.left.elts[0], e.right
+    elif isinstance(e, ast.List) and len(e.elts) == 2 and isinstance(e.elts[1], ast.Starred):
+        head, rest = e.elts[0], e.elts[1].value
+    if isinstance(rest, ast.Call) and dotted(rest.func) == "list" and len(rest.args) == 1:
+        rest = rest.args[0]
+    if head is None or not isinstance(rest, (ast.ListComp, ast.GeneratorExp)):
+        ctx.error(rule, f"Subroutine.cstructs return has an unrecognised shape: {src(rets[0].value)}")
+        return None, None
+    return head, rest
+
+
+def check_header(ctx, rule, sub, cs, md):
+    """the first element is an encoding.Metadata built in this very call from the subroutine's current version and app id"""
+    repo, ev = ctx.repo, ctx.ev
+    if A.is_self_attr(md):
+        # a header kept on the object: accepted when it is filled here and dropped by every method that changes what it encodes
+        cache = md.attr
+        fills = [st.value for st in A.body_nodes(cs) if isinstance(st, ast.Assign) and A.is_self_attr(st.targets[0], cache) and isinstance(st.value, ast.Call)]
+        stale = []
+        for mname, mfn in sorted(sub.methods.items()):
+            stored = {t.attr for st in A.body_nodes(mfn) if isinstance(st, (ast.Assign, ast.AnnAssign, ast.AugAssign))
+                      for t in (st.targets if isinstance(st, ast.Assign) else [st.target]) if A.is_self_attr(t)}
+            if stored & {"_app_id", "_netqasm_version"} and cache not in stored:
+                stale.append(mname)
+        ctx.check(rule, "Subroutine.cstructs:kept-header-is-dropped-when-its-fields-change", len(fills) == 1 and not stale,
+                  f"cstructs hands out the header kept in self.{cache}, but {', '.join(stale) or 'nothing'} changes the app id / version without dropping it: "
+                  "the bytes then carry an app id the subroutine no longer has", sub.loc(cs), sample={"cache": cache, "writers that keep it": stale})
+        if len(fills) != 1:
+            return
+        md = fills[0]
+    mc = repo.resolve_class(sub.module, md.func) if isinstance(md, ast.Call) else None
+    ok = mc is not None and mc.name == "Metadata" and mc.module.name == I.ENC_MOD
+    ctx.check(rule, "Subroutine.cstructs:metadata-first", ok,
+              f"the first element of cstructs is `{src(md)[:60]}`, not an encoding.Metadata(...) built for this serialisation from the subroutine's current fields "
+              "(a header kept from an earlier call goes stale when the app id changes, e.g. through instantiate())", sub.loc(cs))
+    if ok:
+        kw = A.kwargs_of(md)
+        names = [n for n, _, _ in wire.struct_fields(ev, mc)]
+        for i, a in enumerate(md.args):
+            kw[names[i]] = a
+        for fld, attr in (("netqasm_version", "netqasm_version"), ("app_id", "app_id")):
+            v = kw.get(fld)
+            good = v is not None and (A.is_self_attr(v, attr) or A.is_self_attr(v, "_" + attr))
+            ctx.check(rule, f"Subroutine.cstructs:metadata.{fld}", good,
+                      f"Metadata.{fld} is filled from {src(v) if v is not None else 'nothing'} instead of self.{attr}", sub.loc(cs),
+                      sample={"metadata field": fld, "source": src(v) if v is not None else None})
+
+
 def check_framing(ctx):
     repo, ev = ctx.repo, ctx.ev
     enc = repo.module(I.ENC_MOD)
@@ -398,32 +457,10 @@ def check_framing(ctx):
         raise AnalysisError("Subroutine.cstructs / __bytes__ not found")
     ctx.fn("Subroutine.cstructs")
     ctx.fn("Subroutine.__bytes__")
-    defs = A.single_defs(cs)
-    rets = A.returns(cs)
-    if len(rets) != 1:
-        raise AnalysisError("Subroutine.cstructs: expected one return")
-    e = A.expand(rets[0].value, defs)
-    # shape: [Metadata(...)] + [instr.serialize() for instr in self.instructions]
-    ok_shape = isinstance(e, ast.BinOp) and isinstance(e.op, ast.Add) and isinstance(e.left, ast.List) and len(e.left.elts) == 1 and isinstance(e.right, ast.ListComp)
-    if not ok_shape:
-        ctx.error("C01.F", f"Subroutine.cstructs return has an unrecognised shape: {src(rets[0].value)}")
-    else:
-        md = e.left.elts[0]
-        mc = repo.resolve_class(sub.module, md.func) if isinstance(md, ast.Call) else None
-        ok = mc is not None and mc.name == "Metadata" and mc.module.name == I.ENC_MOD
-        ctx.check("C01.F", "Subroutine.cstructs:metadata-first", ok, "the first element of cstructs is not encoding.Metadata(...)", sub.loc(cs))
-        if ok:
-            kw = A.kwargs_of(md)
-            names = [n for n, _, _ in wire.struct_fields(ev, mc)]
-            for i, a in enumerate(md.args):
-                kw[names[i]] = a
-            for fld, attr in (("netqasm_version", "netqasm_version"), ("app_id", "app_id")):
-                v = kw.get(fld)
-                good = v is not None and (A.is_self_attr(v, attr) or A.is_self_attr(v, "_" + attr))
-                ctx.check("C01.F", f"Subroutine.cstructs:metadata.{fld}", good,
-                          f"Metadata.{fld} is filled from {src(v) if v is not None else 'nothing'} instead of self.{attr}", sub.loc(cs),
-                          sample={"metadata field": fld, "source": src(v) if v is not None else None})
-        comp = e.right
+    md, comp = cstructs_parts(ctx, sub, cs, "C01.F")
+    if md is not None:
+        check_header(ctx, "C01.F", sub, cs, md)
+    if comp is not None:
         gen = comp.generators[0]
         it_ok = len(comp.generators) == 1 and not gen.ifs and (A.is_self_attr(gen.iter, "instructions") or A.is_self_attr(gen.iter, "_instructions"))
         elt_ok = isinstance(comp.elt, ast.Call) and isinstance(comp.elt.func, ast.Attribute) and comp.elt.func.attr == "serialize" and \
